@@ -5,7 +5,7 @@
 SNAP="/tmp/verif-snap-$$"; rm -rf "$SNAP"; mkdir -p "$SNAP"
 rsync -a --exclude target --exclude .git --exclude replays /verif/ "$SNAP/"
 trap 'rm -rf "$SNAP"' EXIT
-export MUT_WT=/tmp/aisverif-seed MUT_TARGET=/tmp/aisverif-seed-target
+export MUT_WT="${MUT_WT:-/tmp/aisverif-seed}" MUT_TARGET="${MUT_TARGET:-/tmp/aisverif-seed-target}"
 OUT="${OUT:-/verif/seeded/results.txt}"
 names=("$@"); [ ${#names[@]} -eq 0 ] && names=($(ls -d /verif/seeded/*/ | xargs -n1 basename))
 for name in "${names[@]}"; do
